@@ -634,6 +634,61 @@ static void run_seqh(vh::Reader& r, vh::Out& o)
 		o.w(d);
 }
 
+// seqw: Sample_Metropolis / Sample_Metropolis_2D with the efficiency warning observed.  The runner has redirected fd 2 to the
+// diagnostics file of the case: what the call wrote to std::cerr is read back from it.  Output per call: the values, then 1 if the
+// text "Average acceptance probability" was printed, else 0; after the calls: canonical draws, 1, next raw output, "A" and the
+// averages printed (decimal text of the library, for the predicates).
+static void run_seqw(vh::Reader& r, vh::Out& o)
+{
+	std::mt19937 g0 = make_gen(r);
+	long N			= r.integer();
+	for(long k = 0; k < N; k++)
+		r.word();
+	long K = r.integer();
+	std::vector<Op> ops;
+	for(long k = 0; k < K; k++)
+		ops.push_back(parse_op(r));
+	std::mt19937 g1 = g0, h1(12345u);
+	Ctx c1 {&g1, &h1, nullptr};
+	Sink s1 {&o, {}};
+	std::vector<std::string> printed;
+	for(auto& f : ops)
+	{
+		std::cerr.flush();
+		fflush(stderr);
+		off_t p0 = lseek(2, 0, SEEK_CUR);
+		f(c1, s1);
+		std::cerr.flush();
+		fflush(stderr);
+		off_t p1 = lseek(2, 0, SEEK_CUR);
+		std::string text;
+		if(p0 >= 0 && p1 > p0)
+		{
+			text.resize((size_t)(p1 - p0));
+			ssize_t got = pread(2, &text[0], (size_t)(p1 - p0), p0);
+			text.resize(got > 0 ? (size_t) got : 0);
+		}
+		size_t at = text.find("Average acceptance probability = ");
+		o.i(at != std::string::npos ? 1 : 0);
+		if(at != std::string::npos)
+		{
+			std::istringstream is(text.substr(at + 33));
+			std::string num;
+			is >> num;
+			printed.push_back(num);
+		}
+		else
+			printed.push_back("-");
+	}
+	long d = raw_distance(g0, g1);
+	o.i(d >= 0 && d % 2 == 0 ? d / 2 : -1);
+	o.i(1);
+	o.i((long) g1());
+	o.w("A");
+	for(auto& t : printed)
+		o.w("p" + t);
+}
+
 // A mutated sampler that never terminates would cost the full per-case limit on every case: timeouts are counted in
 // a side file (the worker is killed, so it records the event in its SIGALRM handler and re-raises), and after the
 // third one the limits shrink (ordinary cases take milliseconds).
@@ -676,6 +731,13 @@ static void handler(vh::Reader& r, vh::Out& o)
 		run_seq(r, o, kind == "seqn", nullptr);
 	else if(kind == "seqh")
 		run_seqh(r, o);
+	else if(kind == "seqw")
+		run_seqw(r, o);
+	else if(kind == "seqg")
+	{
+		r.integer();   // number of canonical draws the model may make (its fuel)
+		run_seq(r, o, false, nullptr);
+	}
 	else if(kind == "mgrid")
 	{
 		unsigned long seed = std::strtoul(r.word().c_str(), nullptr, 10);
